@@ -17,7 +17,7 @@ def jhash(obj: Any) -> str:
 
 def jsonable(obj: Any, depth: int = 0) -> Any:
     """Best-effort conversion to something json.dump accepts (for witnesses)."""
-    if depth > 12:
+    if depth > 200:
         return repr(obj)[:200]
     if obj is None or isinstance(obj, (bool, int, float, str)):
         if isinstance(obj, float) and (obj != obj or obj in (float("inf"), float("-inf"))):
